@@ -70,7 +70,7 @@ TABLE = {
            ("NsRejMain.v", ["ns_violation_rejected"], "Import CstNs."),
            ("CstFullNsRejMain.v", ["ns_violation_rejected_full_s6"], "Import RX.Spec.CstFull. Import RX.Spec.CstFullS4. Import RX.Spec.CstFullS6. Import RX.Proofs.CstNsView. Import RX.Proofs.CstFullS6Main. Import RX.Proofs.NsRejDefs. Import RX.Proofs.NsRejBuild. Import RX.Proofs.CstFullRejSem. Import RX.Proofs.CstFullRejTrace. Import RX.Proofs.CstFullRejDoc. Import RX.Proofs.CstFullRejMain. Import RX.Proofs.CstFullNsRejMain.")]),
  "C03": dict(
-   intro="C03 -- elements, comments and PIs mirror the document's logical structure.  Lexer post-conditions\n   (with a token recorder as callback): a comment token's text is exactly the source between '<!--' and\n   '-->'; a PI's target and value are the source strings (value without leading whitespace, None when\n   empty); CDATA / text tokens are their source slices; the DOCTYPE and the prolog / epilog deliver only\n   comments, PIs (and entity declarations); a start tag delivers ElementStart, attributes, one ElementEnd.\n   The XML declaration has no callback at all.  Document-level token shape: Proofs/RejectProofs.v.\n   Completeness on the fragment of Spec/Cst.v (ASCII names and content, no DOCTYPE, references, namespaces, CR): every\n   rendering of a well-formed abstract document -- with any layout choices: whitespace in tags, quote style,\n   empty-element syntax, prolog / epilog comments and PIs -- parses to exactly its meaning (view = sem:\n   kinds, names, attributes in order with values, comment text, PI target / value, text, children counts), so two\n   renderings with the same meaning give the same tree (layout_insensitive).  view is defined in Proofs/CstMain.v.\n   The same over Unicode (Spec/CstU.v: names, values, text, comments, PIs are lists of scalar values in the 5th-edition\n   Name / Char classes, rendered in UTF-8): parse_render_sem_u, layout_insensitive_u, render_valid_utf8.\n   The largest fragment (Spec/CstFull.v stage S3 = Unicode + namespaces + pieces + character-data entities, pinned under\n   C06) extended by the whole PROLOG (Spec/CstFullS5.v): byte order mark, XML declaration, DOCTYPE with external id and an\n   internal subset holding every kind of declaration (general / parameter / external / unparsed entities, ELEMENT /\n   ATTLIST / NOTATION, comments and PIs -- which become nodes under the Root), CR in markup whitespace:\n   parse_render_sem_full_s5 and prolog_insensitive_full_s5 (same meaning => same tree, whatever the prolog).\n   THE CAPSTONE (Spec/CstFullS6.v): S4's entities (character data or markup with qualified names, resolved at the place\n   of reference) inside S5's prolog, CR in markup whitespace everywhere -- ONE statement for the whole supported subset:\n   parse_render_sem_full_s6; same meaning => same tree whatever the distribution over entities, the prolog and the layout\n   (hoist_prolog_insensitive_full_s6); S4 and S5 embed with the same rendering and meaning (s4_in_s6, s5_in_s6), hence\n   so do S1..S3.  What S6 still excludes is listed in the spec files: CR inside comment / PI bodies, '>' inside a literal of\n   a skipped markup declaration, '%' and character references to TAB / LF / CR / '&' / '<' inside entity literals, colons\n   in DOCTYPE / entity names, the CR LF proviso and D15.",
+   intro="C03 -- elements, comments and PIs mirror the document's logical structure.  Lexer post-conditions\n   (with a token recorder as callback): a comment token's text is exactly the source between '<!--' and\n   '-->'; a PI's target and value are the source strings (value without leading whitespace, None when\n   empty); CDATA / text tokens are their source slices; the DOCTYPE and the prolog / epilog deliver only\n   comments, PIs (and entity declarations); a start tag delivers ElementStart, attributes, one ElementEnd.\n   The XML declaration has no callback at all.  Document-level token shape: Proofs/RejectProofs.v.\n   Completeness on the fragment of Spec/Cst.v (ASCII names and content, no DOCTYPE, references, namespaces, CR): every\n   rendering of a well-formed abstract document -- with any layout choices: whitespace in tags, quote style,\n   empty-element syntax, prolog / epilog comments and PIs -- parses to exactly its meaning (view = sem:\n   kinds, names, attributes in order with values, comment text, PI target / value, text, children counts), so two\n   renderings with the same meaning give the same tree (layout_insensitive).  view is defined in Proofs/CstMain.v.\n   The same over Unicode (Spec/CstU.v: names, values, text, comments, PIs are lists of scalar values in the 5th-edition\n   Name / Char classes, rendered in UTF-8): parse_render_sem_u, layout_insensitive_u, render_valid_utf8.\n   The largest fragment (Spec/CstFull.v stage S3 = Unicode + namespaces + pieces + character-data entities, pinned under\n   C06) extended by the whole PROLOG (Spec/CstFullS5.v): byte order mark, XML declaration, DOCTYPE with external id and an\n   internal subset holding every kind of declaration (general / parameter / external / unparsed entities, ELEMENT /\n   ATTLIST / NOTATION, comments and PIs -- which become nodes under the Root), CR in markup whitespace:\n   parse_render_sem_full_s5 and prolog_insensitive_full_s5 (same meaning => same tree, whatever the prolog).\n   THE CAPSTONE (Spec/CstFullS6.v): S4's entities (character data or markup with qualified names, resolved at the place\n   of reference) inside S5's prolog, CR in markup whitespace everywhere -- ONE statement for the whole supported subset:\n   parse_render_sem_full_s6; same meaning => same tree whatever the distribution over entities, the prolog and the layout\n   (hoist_prolog_insensitive_full_s6); S4 and S5 embed with the same rendering and meaning (s4_in_s6, s5_in_s6), hence\n   so do S1..S3.  What S6 still excludes is listed in the spec files: CR inside comment / PI bodies (admitted by S7), '%' and character references to TAB / LF / CR / '&' / '<' inside entity literals, colons\n   in DOCTYPE / entity names, the CR LF proviso and D15.",
    imports=["From RX.Spec Require Cst.", "From RX.Spec Require CstU CstNs CstFull CstFullS5.", "From RX.Proofs Require Import LexerProofs RejectProofs CstMain CstUMain.", "From RX.Proofs Require CstNsView CstFullMain CstFullS5 CstFullS6Main CstFullS6Embed5.", "From RX.Spec Require CstFullS4 CstFullS6.", "From RX.Proofs Require ApiViewAcc ApiView ApiViewProofs ApiViewCapstone.", "From RX.Spec Require CstFullS7.", "From RX.Proofs Require CstFullS7Main."],
    groups=[("CstMain.v", ["parse_render_sem", "layout_insensitive"]),
            ("ApiViewCapstone.v", ["parse_render_sem_full_s6_api", "hoist_prolog_insensitive_full_s6_api"], "Import RX.Spec.CstFull. Import RX.Spec.CstFullS6. Import RX.Proofs.ApiView. Import RX.Proofs.ApiViewProofs. Import RX.Proofs.ApiViewCapstone."),
@@ -131,7 +131,7 @@ TABLE = {
    imports=["From RX.Spec Require Import Tree Deque.", "From RX.Proofs Require Import NavEnc NavLinks NavIter NavAxes NavElem NavParse.", "From RX.Proofs Require ApiViewAcc ApiView ApiViewProofs."],
    groups=[("ApiViewProofs.v", ["api_view_agrees", "api_view_defined"], "Import RX.Proofs.ApiViewAcc. Import RX.Proofs.ApiView. Import RX.Proofs.ApiViewProofs."),
            ("NavLinks.v", ["table_ids", "nav_parent'", "nav_has_children'", "nav_first_child'", "nav_last_child'", "nav_prev_sibling'", "nav_next_sibling'", "nav_descendants'"]),
-           ("NavIter.v", ["nav_children'", "children_deque", "slice_deque"]),
+           ("NavIter.v", ["nav_children'", "children_deque'", "slice_deque"]),
            ("NavAxes.v", ["nav_ancestors'", "nav_next_siblings'", "nav_prev_siblings'", "nav_first_children'", "nav_last_children'"]),
            ("NavParse.v", ["parse_default_arena", "parse_arena'", "parse_ids_dense'", "parse_descendants_preorder'", "parse_children_rev'",
                            "parse_root_element'", "parse_nav_total'"]),
